@@ -7,11 +7,12 @@ CONSTANTS
   AttackerKey = "ka"
   Serials = {1, 2, 65537}
   Uids = {"u1", "u2"}
-  Lvls = {20, 30, 40}
+  Lvls = {20, 40}
   Feats = {0, 2}
-  Lives = {1, 3}
-  MaxNow = 3
+  Lives = {1, 2}
+  MaxNow = 1
   MaxIssued = 2
+  Identities <- MCIdentities
 SPECIFICATION Spec
 INVARIANTS AcceptOnlyIssuedUnexpired AcceptYieldsIssuedIdentity
 CHECK_DEADLOCK FALSE
